@@ -47,7 +47,9 @@ ASSUMPTIONS = [
     "justification of either sign, base64/hex chunk size and space separators, want_generic, want_comments, omit_rdclass "
     "(zone class), origin/relativize of the name style; excluded by name: omit_ttl, truncate_crypto, override_rdclass, "
     "omit_final_dot, first_name_is_duplicate, right justification of the owner column, nl other than LF",
-    "empty nodes / empty rdatasets and comments containing a newline are degenerate values outside the round-trip claim",
+    "empty nodes / empty rdatasets and comments containing a newline are degenerate values outside the round-trip claim; "
+    "the model's zone equality includes RDATA comments, so read_write_lossless is stated against the zone with the comments the "
+    "text carries (keptZone); the library's Zone.__eq__ ignores comments",
     "the tokenizer's one-slot character unget buffer is represented as push-back on the unread input",
 ]
 
@@ -1399,19 +1401,23 @@ def impl_of_op(op: str):
 
 LEVEL = {
     "text": "Lean 4 theorems over executable models of dns/tokenizer.py, dns/ttl.py, dns/grange.py, dns/zonefile.py and the "
-            "zone/node/rdataset text writer: layout independence of the tokenizer (parentheses, newlines, comments, tabs; identifiers with "
-            "escapes and quoted strings), TTL decimal and BIND8-unit forms, the reader as the denotation (fold of txn.add) of a "
-            "zone-independent parser trace, header spelling equivalences (TTL/class order, inherited class/TTL/owner, relative vs absolute "
-            "names) at character level, out-of-zone owners ignored, CNAME exclusivity as an invariant of every load, one canonical record line "
-            "read as one record, $GENERATE index = its expansion line, and write-then-read = identity for the plain style (sorted on/off, "
-            "relativized and absolute) over an abstract RDATA codec (C05 interface) with an A-record instance; tied to the code by a differential "
-            "correspondence check on token streams, loaded zones and written text, and by tables (delimiters, mnemonics, CNAME/neutral/singleton "
-            "types, escaped sets) regenerated from the working tree and fed to the theorems.",
+            "zone/node/rdataset text writer. Proved for all inputs: layout independence of the tokenizer (parentheses, newlines, comments, "
+            "tabs; identifiers with escapes, quoted strings); TTL decimal and BIND8-unit forms; the reader = denotation (fold of txn.add) of a "
+            "zone-independent parser trace; header spelling equivalences at character level (TTL/class order, inherited class/TTL/owner, "
+            "relative vs absolute names); out-of-zone owners ignored; CNAME exclusivity of every load; $GENERATE index = its expansion line; "
+            "and read_write_lossless: write-then-read is the identity for EVERY lossless style of the model — sorted, want_origin ($ORIGIN, also "
+            "read back without being given the origin), default_ttl/$TTL (any value incl. 0), deduplicate_names, owner left-justification and "
+            "either justification of the TTL/class/type columns, want_comments, omit_rdclass, want_generic, name-style origin/relativize, hex "
+            "chunk size/separator — for relativized and absolute zones, over the RDATA interface RdataReads, with concrete codec instances "
+            "proved for A, NS/CNAME/PTR, MX, SOA, TXT (arbitrary octets through quoting and unescape_to_bytes) and the RFC 3597 generic form "
+            "under any blank-separated chunking (known types: given the wire codec). Tied to the code by a differential correspondence check on "
+            "token streams, loaded zones and written text, and by tables (delimiters, mnemonics, CNAME/neutral/singleton types, escaped sets) "
+            "regenerated from the working tree and fed to the theorems.",
     "note": "Trusted: Lean kernel + propext/Classical.choice/Quot.sound; statements in lean/Props/C09.lean; the correspondence harness "
-            "and its generators; harness/extract_C09.py. Tie-only (correspondence + write/read oracle, no theorem): the other lossless style "
-            "knobs (want_origin, $TTL/default_ttl, deduplicate_names, justification, chunking, comments, want_generic, omit_rdclass, name style "
-            "origin/relativize), the text produced by $GENERATE substitution (_parse_modify/_format_index), RDATA codecs other than A. "
-            "want_generic is a recorded finding (D08, write and read side); the model carries both variants and follows the one the code implements.",
+            "and its generators; harness/extract_C09.py. Hypotheses that remain interfaces to other properties: name algebra of owner/target "
+            "names (asName/isSubdomain/relativize: C01/C06), wire codecs of known types under want_generic (C02), RDATA text codecs of types "
+            "other than A/NS/CNAME/PTR/MX/SOA/TXT/generic (C05; checked per rdata by the oracle). Tie-only: base64 chunking (no base64 type in "
+            "the model), the text produced by $GENERATE substitution for bases o/x/X/n/N.",
     "technique": "Lean 4 proof (structural induction over the tokenizer automaton and the line list, refinement of the reader to a "
                  "denotational interp) + model-vs-implementation correspondence + direct write/read oracle",
     "design_ref": "DESIGN.md §7 C09",
